@@ -2283,6 +2283,15 @@ KERNELS = [
     dict(name="CompoundInterval_shift_position", file="location/location_impl.py", cls="CompoundInterval",
          fn="shift_position", args=[("self", "CI"), ("shift", "Int")], ret="LocOut", loops=True, parentless=True,
          cut=dict(before_stmt="_ = r._single_intervals", ctor=None, returns=[("r", "LocOut")])),
+    # C19: the argument validation of `Location.scan_windows` on a SingleInterval (`len(self)` = end - start).  CUT before
+    # the window loop: returns (start_pos, window_size) - the loop itself is `relative_interval_to_parent_location` per
+    # window, modelled in Model/Validate.lean
+    dict(name="Location_scan_windows_checks", file="location/location.py", cls="Location", fn="scan_windows",
+         args=[("self", "SI"), ("window_size", "Int"), ("step_size", "Int"), ("start_pos", "Int")], ret="Pair:Int:Int",
+         loops=True,
+         cut=dict(before_stmt="for curr_start in range(start_pos, len(self) - window_size + 1, step_size):\n"
+                              "    yield self.relative_interval_to_parent_location(curr_start, curr_start + window_size, Strand.PLUS)",
+                  ctor="Prod.mk", returns=[("start_pos", "Int"), ("window_size", "Int")])),
     # `cleaned_location` is a parent-less CompoundInterval (from_single_intervals / chromosome_location always build
     # one); `loc_on_chrom` is read only through `.start` / `.end` (view SI).  CUT before
     # `fivep_distance_mod3 = len(fivep_loc) % 3`: returns `fivep_loc` = the state of the generated
